@@ -62,6 +62,8 @@ TECH_EXTRA = {
  "C05": "; auxiliary real-program corpora through the real macros (E1 corpus under Kani, negative corpus of programs that must not compile)",
  "C16": "; auxiliary twin programs (decorated vs erased) through the real cfg macro chain",
  "C15": "; auxiliary twin declarations (decorated vs erased) through the real macros",
+ "C17": "; auxiliary: one real program over a world declaring all 256 archetypes (the u8 cursor boundary of the world-level event iterator is beyond the solver-based harnesses' 3 archetypes), dev + release",
+ "C19": "; auxiliary: the same 256-archetype program in the dev profile (overflow checks on) and in release",
  "C12": "; admission-kernel counterexamples and boundary witnesses replayed natively through the public API",
 }
 
